@@ -294,7 +294,8 @@ func findCmps(fn *ssa.Function, wantEq bool, match func(x, y ssa.Value) bool) []
 			if !ok || (bo.Op != token.EQL && bo.Op != token.NEQ) {
 				continue
 			}
-			if !match(bo.X, bo.Y) && !match(bo.Y, bo.X) {
+			x, y := cfgx.ResolveAt(bo.X, b), cfgx.ResolveAt(bo.Y, b)
+			if !match(x, y) && !match(y, x) {
 				continue
 			}
 			t, f := cfgx.CondEdges(bo)
